@@ -269,6 +269,9 @@ func (this *RippleExtraInfo) Deserialization(source *common.ZeroCopySource) erro
 	if eof {
 		return fmt.Errorf("RippleExtraInfoParam deserialize length of pk array error")
 	}
+	if l > source.Len() {
+		return fmt.Errorf("RippleExtraInfoParam deserialize length of pk array %d exceeds the remaining data", l)
+	}
 	pks := make([][]byte, l)
 	for i := uint64(0); i < l; i++ {
 		pks[i], eof = source.NextVarBytes()
